@@ -532,6 +532,8 @@ func BvAnd(a, b *Term) *Term {
 		if a.op == OBvAnd && a.args[1].IsConst() {
 			return BvAnd(a.args[0], BVC(new(big.Int).And(a.args[1].val, b.val), w))
 		}
+	} else if a.id > b.id {
+		a, b = b, a
 	}
 	return mk(OBvAnd, a.sort, a, b)
 }
@@ -553,27 +555,78 @@ func BvOr(a, b *Term) *Term {
 	if a == b {
 		return a
 	}
+	// x<<k | x>>(w-k) is a rotation: one canonical form (concat of two extracts)
+	for i := 0; i < 2; i++ {
+		l, r := a, b
+		if i == 1 {
+			l, r = b, a
+		}
+		if l.op == OBvShl && r.op == OBvLshr && l.args[0] == r.args[0] && l.args[1].IsConst() && r.args[1].IsConst() {
+			k := int(l.args[1].val.Int64())
+			if k > 0 && k < w && int(r.args[1].val.Int64()) == w-k {
+				x := l.args[0]
+				return Concat(Extract(x, w-1-k, 0), Extract(x, w-1, w-k))
+			}
+		}
+	}
+	if !b.IsConst() && a.id > b.id {
+		a, b = b, a
+	}
 	return mk(OBvOr, a.sort, a, b)
 }
 
+// BvXor keeps xor chains in a canonical form: flattened, constants folded, operands sorted by id, equal pairs
+// cancelled, rebuilt as a right-nested chain (so that two programs computing the same parity get ONE term).
 func BvXor(a, b *Term) *Term {
 	w := chk2(a, b)
 	if a.IsConst() && b.IsConst() {
 		return BVC(new(big.Int).Xor(a.val, b.val), w)
 	}
-	if a.IsConst() {
-		a, b = b, a
+	if a.op != OBvXor && b.op != OBvXor && !a.IsConst() && !b.IsConst() && a != b {
+		if a.id > b.id {
+			a, b = b, a
+		}
+		return mk(OBvXor, a.sort, a, b)
 	}
-	if isZero(b) {
-		return a
+	var leaves []*Term
+	cst := new(big.Int)
+	var collect func(t *Term)
+	collect = func(t *Term) {
+		for t.op == OBvXor {
+			collect(t.args[0])
+			t = t.args[1]
+		}
+		if t.IsConst() {
+			cst.Xor(cst, t.val)
+		} else {
+			leaves = append(leaves, t)
+		}
 	}
-	if isOnes(b) {
-		return BvNot(a)
+	collect(a)
+	collect(b)
+	sort.Slice(leaves, func(i, j int) bool { return leaves[i].id < leaves[j].id })
+	out := leaves[:0]
+	for i := 0; i < len(leaves); i++ {
+		if i+1 < len(leaves) && leaves[i] == leaves[i+1] {
+			i++
+			continue
+		}
+		out = append(out, leaves[i])
 	}
-	if a == b {
-		return BVC(big0, w)
+	if len(out) == 0 {
+		return BVC(cst, w)
 	}
-	return mk(OBvXor, a.sort, a, b)
+	r := out[len(out)-1]
+	for i := len(out) - 2; i >= 0; i-- {
+		r = mk(OBvXor, a.sort, out[i], r)
+	}
+	if cst.Sign() != 0 {
+		if cst.Cmp(maskW(w)) == 0 && len(out) == 1 {
+			return BvNot(out[0])
+		}
+		r = mk(OBvXor, a.sort, BVC(cst, w), r)
+	}
+	return r
 }
 
 func BvShl(a, b *Term) *Term {
@@ -712,6 +765,26 @@ func Extract(a *Term, hi, lo int) *Term {
 		return BVC(new(big.Int).Rsh(a.val, uint(lo)), nw)
 	}
 	switch a.op {
+	case OBvLshr:
+		if a.args[1].IsConst() {
+			k := int(a.args[1].val.Int64())
+			if hi+k < w {
+				return Extract(a.args[0], hi+k, lo+k)
+			}
+			if lo+k >= w {
+				return BVC(big0, nw)
+			}
+		}
+	case OBvShl:
+		if a.args[1].IsConst() {
+			k := int(a.args[1].val.Int64())
+			if lo >= k {
+				return Extract(a.args[0], hi-k, lo-k)
+			}
+			if hi < k {
+				return BVC(big0, nw)
+			}
+		}
 	case OExtract:
 		return Extract(a.args[0], a.p2+hi, a.p2+lo)
 	case OZext:
